@@ -47,7 +47,7 @@ type AbsState struct {
 	PropVotes  map[string]map[string]VoteRec `json:"propVotes"`
 	Opts       map[string]json.RawMessage    `json:"opts,omitempty"` // current option records by name
 	Trackers   map[string]TrackerRec         `json:"trackers"`
-	Domains    map[string]DomainRec          `json:"domains"`
+	Domains    map[string]DomRec             `json:"domains"`
 	Nonce      map[string]int64              `json:"nonce"` // keeper_ sequence
 	Code       map[string]int64              `json:"code"`  // contract code length by owner
 	Bad        []string                      `json:"bad"`   // amounts that are negative or >= 2^30, with their keys
@@ -108,17 +108,6 @@ type TrackerRec struct {
 	Owner string   `json:"owner"`
 	Wits  []string `json:"wits"`
 	Votes []int64  `json:"votes"`
-}
-type DomainRec struct {
-	Owner   string `json:"owner"`
-	Benef   string `json:"benef"`
-	Expiry  int64  `json:"expiry"`
-	OnSale  bool   `json:"onSale"`
-	Price   int64  `json:"price"`
-	Active  bool   `json:"active"`
-	Parent  string `json:"parent"`
-	LastUpd int64  `json:"lastUpd"`
-	Created int64  `json:"created"`
 }
 
 const Lim = int64(1) << 30
@@ -223,7 +212,7 @@ func ProjectDump(g *Genesis, dump []KV) *AbsState {
 		RwBal: map[string]int64{}, RwWd: map[string]int64{}, Status: map[string]StatusRec{}, Frozen: map[string]FrozenRec{},
 		Requests: map[string]ReqRec{}, CumVotes: map[string]int64{}, Props: map[string]PropRec{},
 		PropFunds: map[string]map[string]int64{}, PropFundT: map[string]int64{}, PropVotes: map[string]map[string]VoteRec{},
-		Trackers: map[string]TrackerRec{}, Domains: map[string]DomainRec{}, Nonce: map[string]int64{}, Code: map[string]int64{},
+		Trackers: map[string]TrackerRec{}, Domains: map[string]DomRec{}, Nonce: map[string]int64{}, Code: map[string]int64{},
 		Bad: []string{}, Unknown: []string{}, Witness: []string{}, ReqTracker: []string{}, RwYears: []YearRec{},
 		Opts: map[string]json.RawMessage{},
 	}
